@@ -80,6 +80,9 @@ def main(argv: Sequence[str]) -> None:
 
     LOGGER.info("Using schema file %s", os.fspath(schema_file))
     schema = json.load(schema_file.open("rb"))
+    # The schema file only carries `definitions`. Without a root reference
+    # every document is accepted; a model document is a `MetaModel`.
+    schema.setdefault("$ref", "#/definitions/MetaModel")
 
     if args.model:
         model_files = [pathlib.Path(m) for m in args.model]
